@@ -20,11 +20,13 @@ FmtPiecesDef == [s \in {} |-> <<>>]
 KB == << Fact(Cx("q", <<a>>)), Fact(Cx("q", <<b>>)), Fact(Cx("r", <<b>>)), Fact(Cx("r", <<c>>)),
          Clause(Cx("p", <<X>>), AndG(<<Call(Cx("q", <<X>>)), Call(Cx("r", <<Y>>))>>)),
          Clause(Cx("s", <<X, Y>>), AndG(<<Call(Cx("q", <<X>>)), Call(Cx("r", <<Y>>)), Call(Cx("q", <<X>>))>>)),
-         Clause(Cx("n", <<X>>), AndG(<<Call(Cx("r", <<X>>)), NotG(Call(Cx("q", <<X>>)))>>)) >>
+         Clause(Cx("n", <<X>>), AndG(<<Call(Cx("r", <<X>>)), NotG(Call(Cx("q", <<X>>)))>>)),
+         Clause(Cx("go", <<>>), AndG(<<Call(Cx("q", <<X>>)), Call(Cx("r", <<X>>))>>)) >>
 
-(* (q(a) and p(b): ground queries which HAVE an answer; q(c): a ground query without one) *)
-Queries == {Cx("q", <<Z>>), Cx("p", <<Z>>), Cx("s", <<Z, Y>>), Cx("n", <<Z>>), Cx("q", <<c>>), Cx("zz", <<Z>>), Cx("q", <<a>>), Cx("p", <<b>>)}
-QueriesQ == {Cx("q", <<Z>>), Cx("p", <<Z>>), Cx("n", <<Z>>), Cx("q", <<c>>), Cx("q", <<a>>)}
+(* (q(a) and p(b): ground queries which HAVE an answer; q(c): a ground query without one;      *)
+(*  go: a query which is only a functor -- nothing to rename, yet it is a new query all the same) *)
+Queries == {Cx("q", <<Z>>), Cx("p", <<Z>>), Cx("s", <<Z, Y>>), Cx("n", <<Z>>), Cx("q", <<c>>), Cx("zz", <<Z>>), Cx("q", <<a>>), Cx("p", <<b>>), Cx("go", <<>>)}
+QueriesQ == {Cx("q", <<Z>>), Cx("p", <<Z>>), Cx("n", <<Z>>), Cx("q", <<c>>), Cx("q", <<a>>), Cx("go", <<>>)}
 Nx == [mode |-> "next", fire |-> 0]
 Sv(k) == [mode |-> "solve", fire |-> k]
 Al(k) == [mode |-> "all", fire |-> k]
@@ -34,7 +36,11 @@ CallLists == { <<Nx, Nx, Nx, Nx>>, <<Sv(0), Sv(0), Sv(0)>>, <<Al(0)>>, <<Al(0), 
 CallListsQ == { <<Nx, Nx, Nx, Nx>>, <<Sv(0), Sv(0), Sv(0)>>, <<Al(0), Nx>>, <<Sv(1)>>, <<Sv(2)>>, <<Al(2)>>, <<Al(3)>>, <<Nx, Sv(1), Sv(0)>> }
 Episodes  == {[query |-> qq, calls |-> cl] : qq \in Queries, cl \in CallLists}
 EpisodesQ == {[query |-> qq, calls |-> cl] : qq \in QueriesQ, cl \in CallListsQ}
+(* a query for a predicate WITHOUT clauses (nothing is fetched after its construction), then any query *)
+EpisodesZ == {[query |-> Cx("zz", <<Z>>), calls |-> cl] : cl \in {<<Al(0), Nx>>, <<Sv(0), Sv(0), Sv(0)>>}}
+EpisodesA == {[query |-> qq, calls |-> cl] : qq \in Queries, cl \in {<<Al(0), Nx>>, <<Nx, Nx, Nx, Nx>>}}
 Plans ==   {<<e1>> : e1 \in Episodes}
+      \cup {<<e1, e2>> : e1 \in EpisodesZ, e2 \in EpisodesA}
       \cup {<<e1, e2>> : e1 \in EpisodesQ, e2 \in EpisodesQ}
       \cup (IF Thorough THEN {<<e1, e2, e3>> : e1 \in {e \in EpisodesQ : \E i \in DOMAIN e.calls : e.calls[i].fire > 0},
                                                e2 \in {e \in EpisodesQ : e.query = Cx("p", <<Z>>)}, e3 \in EpisodesQ}
